@@ -1151,6 +1151,183 @@ Section startup_more.
   Proof. intros H. unfold catch_up. destruct (height <=? m_height (synced w)) eqn:E; [done|lia]. Qed.
 End startup_more.
 
+(** * C15, start-up with a recovery window *)
+
+Lemma insert_tx_keeps t cb b w r : r ∈ mined w -> r ∈ mined (insert_tx t cb b w).
+Proof.
+  intros Hr. unfold insert_tx. destruct b as [m|].
+  - destruct (has_rec _ _ _ _); simpl; [done|]. apply elem_of_app. by left.
+  - destruct (_ || _); done.
+Qed.
+
+Lemma last_drop {A} (l : list A) n : (n < length l)%nat -> list.last (drop n l) = list.last l.
+Proof. intros H. rewrite !last_lookup, drop_length, lookup_drop. f_equal. lia. Qed.
+
+Section recovery.
+  Context (hdr : headers).
+
+  (** Recording transactions of blocks of [B] changes nothing in the sync
+      state and keeps every confirmed record. *)
+  Lemma insert_all_inv B c lo (txs : list rtx) : forall w,
+    Tracks hdr c lo w -> TxOn B None w ->
+    Forall (fun x : rtx => on_chain B (m_height x.2) (m_hash x.2)) txs ->
+    let w' := insert_all txs w in
+    Tracks hdr c lo w' /\ TxOn B None w' /\ chain_synced w' = chain_synced w /\
+    birthday_set w' = birthday_set w /\ synced w' = synced w /\
+    (forall r, r ∈ mined w -> r ∈ mined w').
+  Proof.
+    induction txs as [|x txs IH]; intros w Htr Htx Hl; simpl.
+    - done.
+    - inversion Hl as [|x' l' Hx Hl']; subst.
+      destruct (insert_tx_sync x.1.1 x.1.2 (Some x.2) w) as (E1 & E2 & E3 & E4).
+      destruct (IH (insert_tx x.1.1 x.1.2 (Some x.2) w)) as (H1 & H2 & H3 & H4 & H5 & H6); [| |done|].
+      + by apply (Tracks_ext _ _ _ w).
+      + intros r Hr. apply insert_tx_mined in Hr as [Hr|(m' & [= <-] & Eh & Eha)]; [by apply Htx|].
+        left. by rewrite Eh, Eha.
+      + split; [done|]. split; [done|]. split; [by rewrite H3|]. split; [by rewrite H4|].
+        split; [by rewrite H5|]. intros r Hr. apply H6. by apply insert_tx_keeps.
+  Qed.
+
+  (** Recovery on a backend [B] that continues the chain [c] the wallet
+      follows with the blocks [bs]: the wallet then follows [c ++ bs]. *)
+  Lemma recover_tracks B c bs lo w (txs : list rtx) :
+    Tracks hdr c lo w -> TxOn (c ++ bs) None w -> c <> [] ->
+    length B = (length c + length bs)%nat -> drop (length c) B = bs ->
+    headers_known hdr bs ->
+    Forall (fun x : rtx => on_chain B (m_height x.2) (m_hash x.2)) txs ->
+    exists w', recover B hdr txs w = (w', false) /\
+      Tracks hdr (c ++ bs) (lo_ext lo (tip_height c) (length bs)) w' /\
+      TxOn (c ++ bs) None w' /\ chain_synced w' = chain_synced w /\
+      (forall r, r ∈ mined w -> r ∈ mined w').
+  Proof.
+    intros Htr Htx Hc HlenB Hdrop Hk Htxs.
+    pose proof (tr_height _ _ _ _ Htr) as Hh.
+    pose proof (tip_height_nonneg c Hc) as Hc0.
+    assert (HtipB : tip_height B = tip_height c + Z.of_nat (length bs)) by (unfold tip_height; lia).
+    unfold recover. rewrite Hh, HtipB.
+    destruct (tip_height c + Z.of_nat (length bs) <=? tip_height c) eqn:E.
+    - apply Z.leb_le in E. assert (bs = []) as -> by (destruct bs; [done|simpl length in E; lia]).
+      exists w. rewrite app_nil_r in *. simpl. done.
+    - apply Z.leb_gt in E.
+      set (ftxs := filter (fun x => scanned w x) txs).
+      (* the recorded transactions are in blocks of [c ++ bs] *)
+      assert (Hon : Forall (fun x : rtx => on_chain (c ++ bs) (m_height x.2) (m_hash x.2)) ftxs).
+      { apply list.Forall_forall. intros x Hx. apply elem_of_list_filter in Hx as [Hsc Hx].
+        rewrite list.Forall_forall in Htxs. destruct (Htxs x Hx) as (y & Hy & Ey).
+        unfold scanned in Hsc. rewrite Hh in Hsc. apply andb_prop_elim in Hsc as [Hsc _].
+        apply Is_true_eq_true in Hsc. apply Z.ltb_lt in Hsc.
+        exists y. split; [|done]. rewrite chain_at_app_r by done.
+        unfold chain_at in Hy. destruct (m_height x.2 <? 0) eqn:E0; [lia|].
+        rewrite <- Hdrop, lookup_drop. rewrite <- Hy. f_equal. unfold tip_height in *. lia. }
+      destruct (insert_all_inv (c ++ bs) c lo ftxs w Htr Htx Hon) as (Htr1 & Htx1 & Ecs1 & _ & Es1 & Hkeep1).
+      set (w1 := insert_all ftxs w) in *.
+      destruct (catch_up_blocks_tracks hdr bs c lo w1 Htr1 Hk) as (w2 & Hw2 & Htr2 & Em2 & Ecs2).
+      exists w2.
+      unfold catch_up. rewrite Es1, Hh.
+      destruct (tip_height c + Z.of_nat (length bs) <=? tip_height c) eqn:E'; [lia|].
+      destruct (tip_height c + 1 <? 0) eqn:E2; [lia|].
+      replace (Z.to_nat (tip_height c + Z.of_nat (length bs) - tip_height c)) with (length bs) by lia.
+      replace (Z.to_nat (tip_height c + 1)) with (length c) by (unfold tip_height; lia).
+      rewrite Hdrop, firstn_all, Nat.ltb_irrefl, Hw2.
+      split; [done|]. split; [done|].
+      split; [intros r Hr; rewrite Em2 in Hr; by apply Htx1|].
+      split; [by rewrite Ecs2|]. intros r Hr. rewrite Em2. by apply Hkeep1.
+  Qed.
+
+  (** Recovery BEFORE the rollback loop, after the best chain was
+      reorganised (from above the common prefix [p]) AND extended beyond the
+      wallet's height while the wallet was stopped: recovery moves synced-to
+      onto the backend's new blocks above the wallet's old tip, the loop then
+      finds the wallet's tip on the backend's chain and rolls nothing back.
+      The attempt succeeds, and the wallet is consistent with the chain
+      [p ++ a ++ drop (length a) b] - the wallet's OLD branch [a] up to its
+      old tip, the backend's blocks above - not with the backend's [p ++ b]:
+      the hashes of [a] stay stored, every confirmed record stays. *)
+  Theorem startup_recovery_first p a b lo w loc (txs : list rtx) :
+    consistent hdr (p ++ a) lo w -> p <> [] -> (length a < length b)%nat ->
+    headers_known hdr (p ++ b) ->
+    Forall (fun x : rtx => on_chain (p ++ b) (m_height x.2) (m_hash x.2)) txs ->
+    let F := p ++ a ++ drop (length a) b in
+    exists w', startup_rec_with true false true (p ++ b) hdr loc txs w = (w', false) /\
+      consistent hdr F (lo_ext lo (tip_height (p ++ a)) (length b - length a)) w' /\
+      m_height (synced w') = tip_height (p ++ b) /\
+      chain_synced w' = chain_synced w /\
+      (forall r, r ∈ mined w -> r ∈ mined w').
+  Proof.
+    intros [Htr Htx] Hp Hlen Hk Htxs F. simpl in Htr, Htx.
+    set (bs := drop (length a) b).
+    assert (Hbs : length bs = (length b - length a)%nat) by (unfold bs; by rewrite drop_length).
+    assert (Hc : p ++ a <> []) by (destruct p; done).
+    destruct (recover_tracks (p ++ b) (p ++ a) bs lo w txs Htr) as (w1 & Hw1 & Htr1 & Htx1 & Ecs1 & Hkeep1).
+    - intros r Hr. destruct (Htx r Hr) as [H|H]; [|discriminate]. left. by apply on_chain_app.
+    - done.
+    - rewrite !app_length. lia.
+    - rewrite app_length, drop_app_ge by lia. unfold bs. f_equal. lia.
+    - intros y Hy. apply Hk. apply elem_of_app. right. unfold bs in Hy.
+      apply elem_of_list_lookup in Hy as (i & Hi). rewrite lookup_drop in Hi. by eapply elem_of_list_lookup_2.
+    - done.
+    - unfold startup_rec_with. simpl. rewrite Hw1. simpl.
+      (* the loop: the tip just stored is the backend's tip *)
+      assert (HF : F = (p ++ a) ++ bs) by (unfold F; by rewrite app_assoc).
+      rewrite <- HF, Hbs in Htr1. rewrite <- HF in Htx1.
+      pose proof (tr_height _ _ _ _ Htr1) as Hh1.
+      assert (HtF : tip_height F = tip_height (p ++ b)).
+      { rewrite HF. unfold tip_height. rewrite !app_length, Hbs. lia. }
+      assert (HFne : F <> []) by (rewrite HF; destruct (p ++ a); done).
+      pose proof (tip_height_nonneg F HFne) as HF0.
+      destruct (chain_at_is_Some F (tip_height F)) as [y Hy]; [lia|].
+      assert (Hlast : list.last F = list.last (p ++ b)).
+      { rewrite HF, !last_app. unfold bs. rewrite last_drop by lia.
+        destruct (list.last b) eqn:El; [done|]. apply last_None in El. subst b. simpl in Hlen. lia. }
+      assert (HyB : chain_at (p ++ b) (tip_height F) = Some y).
+      { rewrite HtF, chain_at_tip by (destruct p; done). rewrite <- Hlast, <- chain_at_tip by done. done. }
+      exists w1. split.
+      + unfold sync_rollback, walk_fuel. rewrite Hh1.
+        replace (Z.to_nat (tip_height F) + 2)%nat with (S (Z.to_nat (tip_height F) + 1)) by lia.
+        simpl. rewrite (tr_hashes _ _ _ _ Htr1 (tip_height F) y); [|by destruct (tr_lo _ _ _ _ Htr1)|done].
+        rewrite HyB. destruct (tr_hdr _ _ _ _ Htr1 y (chain_at_elem _ _ _ Hy)) as [t ->].
+        by rewrite N.eqb_refl.
+      + split; [done|]. split; [by rewrite Hh1|]. done.
+  Qed.
+
+  (** Without a recovery window the attempt is [startup]. *)
+  Lemma startup_rec_no_window o first B loc (txs : list rtx) w :
+    startup_rec_with o first false B hdr loc txs w = startup first B hdr loc w.
+  Proof.
+    unfold startup_rec_with, startup. destruct first; simpl; [|done].
+    destruct (first_sync B hdr loc w) as [w1 [|]]; done.
+  Qed.
+
+  (** The other order (rollback loop first, recovery after it): under the
+      premises of [sync_rollback_spec] the wallet ends consistent with the
+      backend's chain. *)
+  Theorem startup_rollback_first p a b lo w loc (txs : list rtx) :
+    consistent hdr (p ++ a) lo w -> p <> [] -> diverge a b -> (length a <= length b)%nat ->
+    headers_known hdr (p ++ b) -> (a = [] \/ disc_ok lo (tip_height p + 1) = true) ->
+    Forall (fun x : rtx => on_chain (p ++ b) (m_height x.2) (m_hash x.2)) txs ->
+    exists w', startup_rec_with false false true (p ++ b) hdr loc txs w = (w', false) /\
+      consistent hdr (p ++ b) (lo_ext lo (tip_height p) (length b)) w' /\
+      chain_synced w' = chain_synced w.
+  Proof.
+    intros Hc Hp Hdiv Hlen Hk Hok Htxs.
+    destruct (sync_rollback_spec hdr p a b lo w Hc Hp Hdiv Hlen Hk Hok) as (w0 & Hw0 & Hnil & Hcons).
+    assert (Hc0 : consistent hdr p lo w0 /\ chain_synced w0 = chain_synced w).
+    { destruct a as [|a0 a'].
+      - rewrite (Hnil eq_refl). by rewrite app_nil_r in Hc.
+      - by destruct Hcons as (_ & _ & ? & ?). }
+    destruct Hc0 as [[Htr0 Htx0] Ecs0]. simpl in Htr0, Htx0.
+    destruct (recover_tracks (p ++ b) p b lo w0 txs Htr0) as (w1 & Hw1 & Htr1 & Htx1 & Ecs1 & _).
+    - intros r Hr. destruct (Htx0 r Hr) as [H|H]; [|discriminate]. left. by apply on_chain_app.
+    - done.
+    - by rewrite app_length.
+    - by rewrite drop_app.
+    - intros y Hy. apply Hk. apply elem_of_app. by right.
+    - done.
+    - exists w1. unfold startup_rec_with. simpl. rewrite Hw0. simpl. rewrite Hw1.
+      split; [done|]. split; [by split|]. by rewrite Ecs1.
+  Qed.
+End recovery.
+
 (** Stop / evolve / start: rollback loop, rescan notifications, catchUpHashes. *)
 Section offline.
   Context (hdr : headers).
